@@ -911,6 +911,8 @@ def plan(prop, tier, seed, known):
                                 disk=12000, dumpeach=40, extra=["-snapeach", "10"]))
         jobs.append(probe_job(prop, av))
         jobs += design_jobs("Icache", ["Icache"], [], [("Icache_nodrop", "Coherent"), ("Icache_nowrite", "Coherent")], q)
+        # the per-directory name cache and the slot choice that depends on it
+        jobs += design_jobs("DirCache", ["DirCache"], ["DirCache_big"], [("DirCache_keep", "Coherent"), ("DirCache_nodel", "Coherent")], q)
     elif prop == "C09":
         n = 5 if q else 40
         for i in range(n):
